@@ -106,11 +106,13 @@ func envFsm() string {
 	if newFsm == nil || len(newFsm.Args) != 3 {
 		die("envfsm: fsm.NewFSM(initial, events, callbacks) call not found in newEnvironment")
 	}
-	initial, ok := strLit(newFsm.Args[0])
+	pkgVals := pkgValues(files)
+	neScope := envScope{pkg: pkgVals, locals: localsOf(ne.Body)}
+	initial, ok := neScope.str(newFsm.Args[0])
 	if !ok {
-		die("envfsm: initial state is not a string literal")
+		die("envfsm: initial state is not a string literal or constant")
 	}
-	evLit, ok := newFsm.Args[1].(*ast.CompositeLit)
+	evLit, ok := neScope.composite(newFsm.Args[1])
 	if !ok || selName(evLit.Type) != "Events" {
 		die("envfsm: second argument of fsm.NewFSM is not an fsm.Events literal")
 	}
@@ -121,41 +123,35 @@ func envFsm() string {
 	}
 	var entries []entry
 	for _, el := range evLit.Elts {
-		cl, ok := el.(*ast.CompositeLit)
+		cl, ok := neScope.composite(el)
 		if !ok {
 			die("envfsm: fsm.Events element is not a composite literal")
 		}
+		fields := litFields(cl, []string{"Name", "Src", "Dst"})
 		var en entry
-		seen := map[string]bool{}
-		for _, f := range cl.Elts {
-			kv, ok := f.(*ast.KeyValueExpr)
-			if !ok {
-				die("envfsm: fsm.EventDesc without field names")
-			}
-			k := selName(kv.Key)
-			seen[k] = true
+		for k, v := range fields {
 			switch k {
 			case "Name":
-				s, ok := strLit(kv.Value)
+				s, ok := neScope.str(v)
 				if !ok {
-					die("envfsm: event Name is not a literal")
+					die("envfsm: event Name is not a literal or constant")
 				}
 				en.name = s
 			case "Dst":
-				s, ok := strLit(kv.Value)
+				s, ok := neScope.str(v)
 				if !ok {
-					die("envfsm: event Dst is not a literal")
+					die("envfsm: event Dst is not a literal or constant")
 				}
 				en.dst = s
 			case "Src":
-				sl, ok := kv.Value.(*ast.CompositeLit)
+				sl, ok := neScope.composite(v)
 				if !ok {
 					die("envfsm: event Src is not a slice literal")
 				}
 				for _, x := range sl.Elts {
-					s, ok := strLit(x)
+					s, ok := neScope.str(x)
 					if !ok {
-						die("envfsm: event Src element is not a literal")
+						die("envfsm: event Src element is not a literal or constant")
 					}
 					en.src = append(en.src, s)
 				}
@@ -163,8 +159,14 @@ func envFsm() string {
 				die("envfsm: unexpected EventDesc field %s", k)
 			}
 		}
-		if !seen["Name"] || !seen["Src"] || !seen["Dst"] {
-			die("envfsm: EventDesc lacks Name/Src/Dst")
+		if _, a := fields["Name"]; !a {
+			die("envfsm: EventDesc lacks Name")
+		}
+		if _, a := fields["Src"]; !a {
+			die("envfsm: EventDesc lacks Src")
+		}
+		if _, a := fields["Dst"]; !a {
+			die("envfsm: EventDesc lacks Dst")
 		}
 		entries = append(entries, en)
 	}
@@ -173,7 +175,7 @@ func envFsm() string {
 	}
 	// the callbacks map must use the four generic keys only (the model knows no per-event /
 	// per-state callback)
-	cbLit, ok := newFsm.Args[2].(*ast.CompositeLit)
+	cbLit, ok := neScope.composite(newFsm.Args[2])
 	if !ok {
 		die("envfsm: callbacks argument is not a literal")
 	}
@@ -183,9 +185,9 @@ func envFsm() string {
 		if !ok {
 			die("envfsm: callbacks literal without keys")
 		}
-		s, ok := strLit(kv.Key)
+		s, ok := neScope.str(kv.Key)
 		if !ok {
-			die("envfsm: callback key is not a literal")
+			die("envfsm: callback key is not a literal or constant")
 		}
 		cbKeys = append(cbKeys, s)
 	}
@@ -197,6 +199,8 @@ func envFsm() string {
 	// ---- 2. event names carried by Transition values: baseTransition literals, eventName methods
 	ctorName := map[string]string{} // constructor function -> event name
 	var allNames []string
+	btFields := structFields(files, "baseTransition")
+	funcsByName := pkgFuncs(files)
 	for fn, f := range files {
 		for _, d := range f.Decls {
 			fd, ok := d.(*ast.FuncDecl)
@@ -216,34 +220,59 @@ func envFsm() string {
 					die("envfsm: eventName() implemented by %s in %s; the model knows baseTransition only", recv, fn)
 				}
 			}
+			scope := envScope{pkg: pkgVals, locals: localsOf(fd.Body)}
+			register := func(owner *ast.FuncDecl, s string) {
+				allNames = append(allNames, s)
+				if owner.Recv == nil {
+					if old, dup := ctorName[owner.Name.Name]; dup && old != s {
+						die("envfsm: two transition names in %s", owner.Name.Name)
+					}
+					ctorName[owner.Name.Name] = s
+				}
+			}
 			ast.Inspect(fd.Body, func(n ast.Node) bool {
 				cl, ok := n.(*ast.CompositeLit)
 				if !ok || selName(cl.Type) != "baseTransition" {
 					return true
 				}
-				found := false
-				for _, el := range cl.Elts {
-					kv, ok := el.(*ast.KeyValueExpr)
-					if !ok {
-						die("envfsm: positional baseTransition literal in %s", fn)
-					}
-					if selName(kv.Key) == "name" {
-						s, ok := strLit(kv.Value)
-						if !ok {
-							die("envfsm: non-literal transition name in %s (%s)", fn, fd.Name.Name)
-						}
-						found = true
-						allNames = append(allNames, s)
-						if fd.Recv == nil {
-							if _, dup := ctorName[fd.Name.Name]; dup {
-								die("envfsm: two baseTransition literals in %s", fd.Name.Name)
-							}
-							ctorName[fd.Name.Name] = s
-						}
-					}
-				}
+				v, found := litFields(cl, btFields)["name"]
 				if !found {
 					die("envfsm: baseTransition literal without name in %s", fn)
+				}
+				if s, ok := scope.str(v); ok {
+					register(fd, s)
+					return true
+				}
+				// the name is a parameter of a helper: take it from the helper's callers
+				id, isId := scope.resolve(v).(*ast.Ident)
+				pi := -1
+				if isId {
+					pi = paramIndex(fd, id.Name)
+				}
+				if pi < 0 {
+					die("envfsm: non-literal transition name in %s (%s)", fn, fd.Name.Name)
+				}
+				callers := 0
+				for _, cands := range funcsByName {
+					for _, caller := range cands {
+						cs := envScope{pkg: pkgVals, locals: localsOf(caller.Body)}
+						ast.Inspect(caller.Body, func(m ast.Node) bool {
+							c, ok := m.(*ast.CallExpr)
+							if !ok || localCallee(funcsByName, c) != fd || pi >= len(c.Args) {
+								return true
+							}
+							s, ok := cs.str(c.Args[pi])
+							if !ok {
+								die("envfsm: %s is called with a transition name that is not a literal or constant (%s)", fd.Name.Name, caller.Name.Name)
+							}
+							callers++
+							register(caller, s)
+							return true
+						})
+					}
+				}
+				if callers == 0 {
+					die("envfsm: helper %s builds a transition but is never called", fd.Name.Name)
 				}
 				return true
 			})
@@ -269,95 +298,11 @@ func envFsm() string {
 	if mt == nil {
 		die("envfsm: MakeTransition not found")
 	}
-	var sw *ast.SwitchStmt
-	for _, st := range mt.Body.List {
-		if s, ok := st.(*ast.SwitchStmt); ok {
-			if sw != nil {
-				die("envfsm: MakeTransition has more than one switch")
-			}
-			sw = s
+	opMap, def, seenOps := makeTransitionTable(files, mt, ctorName)
+	for o := range seenOps {
+		if _, ok := envOptypes[o]; !ok {
+			die("envfsm: optype %s is not known to the model", o)
 		}
-	}
-	if sw == nil || selName(sw.Tag) != "optype" {
-		die("envfsm: MakeTransition: switch optype not found")
-	}
-	// result of a clause body: "" = nil, else event name; fallthrough resolved afterwards
-	type clause struct {
-		ops    []string // optype names, empty = default
-		result string
-		fall   bool
-	}
-	var clauses []clause
-	for _, st := range sw.Body.List {
-		cc := st.(*ast.CaseClause)
-		var c clause
-		for _, e := range cc.List {
-			n := selName(e)
-			if !strings.HasPrefix(n, "ControlEnvironmentRequest_") {
-				die("envfsm: MakeTransition case %q is not a ControlEnvironmentRequest_ constant", n)
-			}
-			c.ops = append(c.ops, strings.TrimPrefix(n, "ControlEnvironmentRequest_"))
-		}
-		if len(cc.Body) != 1 {
-			die("envfsm: MakeTransition case body is not a single statement")
-		}
-		switch b := cc.Body[0].(type) {
-		case *ast.BranchStmt:
-			if b.Tok != token.FALLTHROUGH {
-				die("envfsm: MakeTransition: unexpected branch statement")
-			}
-			c.fall = true
-		case *ast.ReturnStmt:
-			if len(b.Results) != 1 {
-				die("envfsm: MakeTransition: return with %d results", len(b.Results))
-			}
-			if id, ok := b.Results[0].(*ast.Ident); ok && id.Name == "nil" {
-				c.result = ""
-			} else if call, ok := b.Results[0].(*ast.CallExpr); ok {
-				fn := selName(call.Fun)
-				ev, ok := ctorName[fn]
-				if !ok {
-					die("envfsm: MakeTransition returns %s(...), not a known transition constructor", fn)
-				}
-				c.result = ev
-			} else {
-				die("envfsm: MakeTransition: unexpected return expression")
-			}
-		default:
-			die("envfsm: MakeTransition: unexpected statement in case body")
-		}
-		clauses = append(clauses, c)
-	}
-	for i := len(clauses) - 1; i >= 0; i-- {
-		if clauses[i].fall {
-			if i == len(clauses)-1 {
-				die("envfsm: fallthrough in the last clause")
-			}
-			clauses[i].result = clauses[i+1].result
-		}
-	}
-	// anything after the switch must be `return nil`
-	last := mt.Body.List[len(mt.Body.List)-1]
-	if rs, ok := last.(*ast.ReturnStmt); !ok || len(rs.Results) != 1 || selName(rs.Results[0]) != "nil" {
-		die("envfsm: MakeTransition does not end with return nil")
-	}
-	opMap := map[string]string{}
-	def := ""
-	hasDefault := false
-	for _, c := range clauses {
-		if len(c.ops) == 0 {
-			def = c.result
-			hasDefault = true
-		}
-		for _, o := range c.ops {
-			if _, ok := envOptypes[o]; !ok {
-				die("envfsm: optype %s is not known to the model", o)
-			}
-			opMap[o] = c.result
-		}
-	}
-	if !hasDefault {
-		def = "" // falls out of the switch to return nil
 	}
 	// every optype of the protobuf enum must be known to the model
 	_, pbf := parseFile("core/protos/o2control.pb.go")
@@ -377,6 +322,7 @@ func envFsm() string {
 	eventSites := 0
 	var forced []string
 	nonLiteralForced := 0
+	dirVals := map[string]map[string]ast.Expr{}
 	filepath.Walk(filepath.Join(repo, "core"), func(p string, info os.FileInfo, err error) error {
 		if err != nil || info.IsDir() || !strings.HasSuffix(p, ".go") || strings.HasSuffix(p, "_test.go") ||
 			strings.HasPrefix(filepath.Base(p), "zz_verif") || strings.HasSuffix(p, ".pb.go") {
@@ -384,40 +330,57 @@ func envFsm() string {
 		}
 		rel, _ := filepath.Rel(repo, p)
 		_, f := parseFile(rel)
-		ast.Inspect(f, func(n ast.Node) bool {
-			c, ok := n.(*ast.CallExpr)
-			if !ok {
-				return true
-			}
-			s, ok := c.Fun.(*ast.SelectorExpr)
-			if !ok {
-				return true
-			}
-			recvIsSm := selName(s.X) == "Sm"
-			switch {
-			case s.Sel.Name == "Event" && recvIsSm:
-				eventSites++
-				if rel != "core/environment/environment.go" || len(c.Args) < 2 {
-					die("envfsm: Sm.Event called in %s; the model knows the call in TryTransition only", rel)
-				}
-				if call, ok := c.Args[1].(*ast.CallExpr); !ok || selName(call.Fun) != "eventName" {
-					die("envfsm: Sm.Event is not called with t.eventName()")
-				}
-			case (s.Sel.Name == "SetState" && recvIsSm) || (s.Sel.Name == "setState" && strings.HasPrefix(rel, "core/environment/")):
-				if rel == "core/environment/environment.go" && s.Sel.Name == "SetState" {
-					return true // the body of setState itself
-				}
-				if len(c.Args) != 1 {
+		dir := filepath.Dir(rel)
+		if _, ok := dirVals[dir]; !ok {
+			dirVals[dir] = pkgValues(pkgFiles(dir))
+		}
+		visit := func(root ast.Node, scope envScope, inSetState bool) {
+			ast.Inspect(root, func(n ast.Node) bool {
+				c, ok := n.(*ast.CallExpr)
+				if !ok {
 					return true
 				}
-				if lit, ok := strLit(c.Args[0]); ok {
-					forced = append(forced, lit)
-				} else {
-					nonLiteralForced++
+				s, ok := c.Fun.(*ast.SelectorExpr)
+				if !ok {
+					return true
 				}
+				recvIsSm := selName(s.X) == "Sm"
+				switch {
+				case s.Sel.Name == "Event" && recvIsSm:
+					eventSites++
+					if rel != "core/environment/environment.go" || len(c.Args) < 2 {
+						die("envfsm: Sm.Event called in %s; the model knows the call in TryTransition only", rel)
+					}
+					if call, ok := scope.resolve(c.Args[1]).(*ast.CallExpr); !ok || selName(call.Fun) != "eventName" {
+						die("envfsm: Sm.Event is not called with t.eventName()")
+					}
+				case (s.Sel.Name == "SetState" && recvIsSm) || (s.Sel.Name == "setState" && strings.HasPrefix(rel, "core/environment/")):
+					if inSetState && s.Sel.Name == "SetState" {
+						return true // the body of setState itself
+					}
+					if len(c.Args) != 1 {
+						return true
+					}
+					if lit, ok := scope.str(c.Args[0]); ok {
+						forced = append(forced, lit)
+					} else {
+						nonLiteralForced++
+					}
+				}
+				return true
+			})
+		}
+		for _, d := range f.Decls {
+			switch v := d.(type) {
+			case *ast.FuncDecl:
+				if v.Body != nil {
+					visit(v.Body, envScope{pkg: dirVals[dir], locals: localsOf(v.Body)},
+						rel == "core/environment/environment.go" && v.Name.Name == "setState")
+				}
+			default:
+				visit(d, envScope{pkg: dirVals[dir]}, false)
 			}
-			return true
-		})
+		}
 		return nil
 	})
 	if eventSites != 1 {
@@ -431,91 +394,42 @@ func envFsm() string {
 	if de == nil {
 		die("envfsm: RpcServer.DestroyEnvironment not found")
 	}
+	if _, ok := dirVals["core"]; !ok {
+		dirVals["core"] = pkgValues(pkgFiles("core"))
+	}
+	deScope := envScope{pkg: dirVals["core"], locals: localsOf(de.Body)}
+	sfdLit, ok := deScope.composite(ast.NewIdent("statesForDestroy"))
+	if !ok {
+		die("envfsm: statesForDestroy (a slice literal) not found in DestroyEnvironment or at package level")
+	}
 	var sfd []string
-	foundSfd := false
-	ast.Inspect(de.Body, func(n ast.Node) bool {
-		as, ok := n.(*ast.AssignStmt)
-		if !ok || len(as.Lhs) != 1 || selName(as.Lhs[0]) != "statesForDestroy" {
-			return true
-		}
-		cl, ok := as.Rhs[0].(*ast.CompositeLit)
+	for _, e := range sfdLit.Elts {
+		s, ok := deScope.str(e)
 		if !ok {
-			die("envfsm: statesForDestroy is not a literal")
+			die("envfsm: statesForDestroy element is not a literal or constant")
 		}
-		foundSfd = true
-		for _, e := range cl.Elts {
-			s, ok := strLit(e)
-			if !ok {
-				die("envfsm: statesForDestroy element is not a literal")
-			}
-			sfd = append(sfd, s)
-		}
-		return true
-	})
-	if !foundSfd {
-		die("envfsm: statesForDestroy not found in DestroyEnvironment")
+		sfd = append(sfd, s)
 	}
 
 	// ---- 6. lock discipline of the locked sections: every read of the FSM state in
-	// TryTransition, ForceError and TeardownEnvironment lies after the transition mutex is taken
-	_, envf := parseFile("core/environment/environment.go")
-	_, manf := parseFile("core/environment/manager.go")
+	// TryTransition, ForceError and TeardownEnvironment (and in the package-local helpers they call
+	// before that point) lies after the transition mutex is taken
 	preLockReads := 0
-	for _, fn := range []struct {
-		f          *ast.File
-		recv, name string
-	}{{envf, "Environment", "TryTransition"}, {envf, "Environment", "ForceError"}, {manf, "Manager", "TeardownEnvironment"}} {
-		fd := findFunc(fn.f, fn.recv, fn.name)
+	for _, fn := range []struct{ recv, name string }{{"Environment", "TryTransition"}, {"Environment", "ForceError"}, {"Manager", "TeardownEnvironment"}} {
+		var fd *ast.FuncDecl
+		for _, f := range files {
+			if x := findFunc(f, fn.recv, fn.name); x != nil {
+				fd = x
+			}
+		}
 		if fd == nil || fd.Body == nil {
 			die("envfsm: %s.%s not found", fn.recv, fn.name)
 		}
-		lockPos := token.NoPos
-		// local names of the mutex: mu := &env.transitionMutex
-		alias := map[string]bool{"transitionMutex": true}
-		ast.Inspect(fd.Body, func(n ast.Node) bool {
-			as, ok := n.(*ast.AssignStmt)
-			if !ok || len(as.Lhs) != 1 || len(as.Rhs) != 1 {
-				return true
-			}
-			mentions := false
-			ast.Inspect(as.Rhs[0], func(m ast.Node) bool {
-				if se, ok := m.(*ast.SelectorExpr); ok && se.Sel.Name == "transitionMutex" {
-					mentions = true
-				}
-				return true
-			})
-			if id, ok := as.Lhs[0].(*ast.Ident); ok && mentions {
-				alias[id.Name] = true
-			}
-			return true
-		})
-		ast.Inspect(fd.Body, func(n ast.Node) bool {
-			c, ok := n.(*ast.CallExpr)
-			if !ok {
-				return true
-			}
-			if se, ok := c.Fun.(*ast.SelectorExpr); ok && (se.Sel.Name == "Lock" || se.Sel.Name == "TryLock") {
-				if alias[selName(se.X)] && (lockPos == token.NoPos || c.Pos() < lockPos) {
-					lockPos = c.Pos()
-				}
-			}
-			return true
-		})
+		lockPos := lockPosition(funcsByName, fd)
 		if lockPos == token.NoPos {
-			die("envfsm: %s.%s does not take transitionMutex (Lock / TryLock on a selector ending in transitionMutex)", fn.recv, fn.name)
+			die("envfsm: %s.%s does not take transitionMutex (directly or through a helper of the package)", fn.recv, fn.name)
 		}
-		ast.Inspect(fd.Body, func(n ast.Node) bool {
-			c, ok := n.(*ast.CallExpr)
-			if !ok || c.Pos() >= lockPos {
-				return true
-			}
-			if se, ok := c.Fun.(*ast.SelectorExpr); ok {
-				if se.Sel.Name == "CurrentState" || ((se.Sel.Name == "Current" || se.Sel.Name == "Is" || se.Sel.Name == "Can") && selName(se.X) == "Sm") {
-					preLockReads++
-				}
-			}
-			return true
-		})
+		preLockReads += stateReads(funcsByName, fd.Body, lockPos, fd, 0)
 	}
 
 	// ---- output
